@@ -70,8 +70,8 @@ CASES = [
          edits=[dict(file=SB, old="        for a_patch in patches:\n            a_patch.stop()", new="        for a_patch in patches:\n            a_patch.stop()\n            break")]),
     # tolerating an empty stdout stack changes nothing the property speaks about (an earlier shape rule flagged it)
     dict(name='twin-stop_mocking-tolerates-empty-stack', kind='twin',
-         edits=[dict(file=SB, old="        current_stdout = self._current_stdout.pop()\n        self.append_output(current_stdout.getvalue(), context)",
-                     new="        if not self._current_stdout:\n            return\n        current_stdout = self._current_stdout.pop()\n        self.append_output(current_stdout.getvalue(), context)")]),
+         edits=[dict(file=SB, old="        current_stdout = self._current_stdout.pop()\n        try:\n            output = current_stdout.getvalue()",
+                     new="        if not self._current_stdout:\n            return\n        current_stdout = self._current_stdout.pop()\n        try:\n            output = current_stdout.getvalue()")]),
     dict(name='new-helper-calls-stop_patches', kind='mutant', rule='R3', key='who-may-call:_stop_patches@Sandbox.clear',
          edits=[dict(file=SB, old="        self.clear_data()\n        self.clear_context()\n        self.clear_mocks()",
                      new="        self._stop_patches()\n        self.clear_data()\n        self.clear_context()\n        self.clear_mocks()")]),
